@@ -75,7 +75,7 @@ Proof. exact EquivStatic.static_is_safe_path_tie. Qed.
 Print Assumptions C02_code_static_is_safe_path_tie.
 
 Theorem C02_code_handle_tie : forall flt tok c f url,
-  norm_resp (gen_handle (model_lib flt tok) c f url) = resp_of_sout (handle c f url).
+  norm_resp (gen_handle (model_lib flt tok) c f url) = resp_of_sout url (handle c f url).
 Proof. exact EquivStatic.handle_tie. Qed.
 Print Assumptions C02_code_handle_tie.
 
@@ -84,3 +84,46 @@ Theorem C02_code_canon_lib_tie : forall flt tok p up, unquote p = Ok up ->
 Proof. exact EquivStatic.canon_lib_tie. Qed.
 Print Assumptions C02_code_canon_lib_tie.
 
+(* ---- tie to the code: content/gemtext.py (the text of a directory listing) (coq/Equiv/EquivGemtext.v): re-checked here against the definitions regenerated from /repo's working tree; see DESIGN.md 11.8 ---- *)
+From NV Require Equiv.EquivGemtext.
+Theorem C02_code_format_file_size_tie : ltac:(let t := type of @EquivGemtext.format_file_size_tie in exact t).
+Proof. exact (@EquivGemtext.format_file_size_tie). Qed.
+Print Assumptions C02_code_format_file_size_tie.
+
+Theorem C02_code_listing_tie : ltac:(let t := type of @EquivGemtext.listing_tie in exact t).
+Proof. exact (@EquivGemtext.listing_tie). Qed.
+Print Assumptions C02_code_listing_tie.
+
+Theorem C02_code_listing_in_model : ltac:(let t := type of @EquivGemtext.listing_in_model in exact t).
+Proof. exact (@EquivGemtext.listing_in_model). Qed.
+Print Assumptions C02_code_listing_in_model.
+
+Theorem C02_code_static_listing_tie : ltac:(let t := type of @EquivGemtext.static_listing_tie in exact t).
+Proof. exact (@EquivGemtext.static_listing_tie). Qed.
+Print Assumptions C02_code_static_listing_tie.
+
+Theorem C02_code_handle_listing_tie : ltac:(let t := type of @EquivGemtext.handle_listing_tie in exact t).
+Proof. exact (@EquivGemtext.handle_listing_tie). Qed.
+Print Assumptions C02_code_handle_listing_tie.
+
+(* ---- a directory listing is a function of names, kinds and sizes only (coq/Proofs/C02_listing.v) ---- *)
+From NV Require Proofs.C02_listing.
+Theorem C02_model_listing_content_independent : ltac:(let t := type of @C02_listing.listing_content_independent in exact t).
+Proof. exact (@C02_listing.listing_content_independent). Qed.
+Print Assumptions C02_model_listing_content_independent.
+
+Theorem C02_model_listing_factorisation : ltac:(let t := type of @C02_listing.listing_factorisation in exact t).
+Proof. exact (@C02_listing.listing_factorisation). Qed.
+Print Assumptions C02_model_listing_factorisation.
+
+Theorem C02_model_listing_lines : ltac:(let t := type of @C02_listing.listing_lines in exact t).
+Proof. exact (@C02_listing.listing_lines). Qed.
+Print Assumptions C02_model_listing_lines.
+
+Theorem C02_model_listing_static : ltac:(let t := type of @C02_listing.listing_static in exact t).
+Proof. exact (@C02_listing.listing_static). Qed.
+Print Assumptions C02_model_listing_static.
+
+Theorem C02_model_handle_listing_text : ltac:(let t := type of @C02_listing.handle_listing_text in exact t).
+Proof. exact (@C02_listing.handle_listing_text). Qed.
+Print Assumptions C02_model_handle_listing_text.
